@@ -118,6 +118,11 @@ def make_aux(rng, x, xr):
     if f.size >= 2:
         a["like"] = xr.DataArray(np.zeros((len(a["freq_t"]), len(a["dir_t"]))), dims=["freq", "dir"], coords={"freq": a["freq_t"], "dir": a["dir_t"]})
     a["dmin"], a["dmax"] = 45.0, 200.0
+    if "dir" in x.dims and x.sizes["dir"] >= 3 and rng.random() < 0.5:
+        # sector limits that coincide with direction bins (the limits are inclusive)
+        d_ = np.sort(x.dir.values.astype("float64"))
+        i_, j_ = sorted(int(v) for v in rng.choice(len(d_), 2, replace=False))
+        a["dmin"], a["dmax"] = float(d_[i_]), float(d_[j_])
     if f.size >= 2:
         fm = float((f[0] + f[-1]) / 2)
         b1, b2 = dict(fmin=float(f[0]), fmax=fm, dmin=10.0, dmax=170.0), dict(fmin=fm * 1.0001, fmax=float(f[-1]), dmin=180.0, dmax=350.0)
